@@ -61,7 +61,10 @@ impl EventGen for SvgElement {
         let res = gen(self.clone(), context);
         if is_container {
             context.dec_depth()?;
-            return res;
+            // (`<a>`, `<switch>` and the like can carry a clip-path as a `<g>` can)
+            let (ol, bbox) = res?;
+            let bbox = self.clipped_bbox(&ol, bbox, context)?;
+            return Ok((ol, bbox));
         }
         // Ideally would have a single 'if bbox, set prev_element' here,
         // but is used for attribute lookup as well as bbox, so need the
@@ -117,10 +120,13 @@ impl SvgElement {
             let clip_el = context
                 .get_element(&clip_id)
                 .ok_or(SvgdxError::ReferenceError(clip_id))?;
-            if let ("clipPath", Some(clip_bbox)) =
-                (clip_el.name.as_str(), context.get_element_bbox(clip_el)?)
-            {
-                if self.has_attr("transform") {
+            if clip_el.name == "clipPath" {
+                let clip_bbox = context.get_element_bbox(clip_el)?;
+                let object_units =
+                    clip_el.get_attr("clipPathUnits").as_deref() == Some("objectBoundingBox");
+                if let (true, false, Some(clip_bbox)) =
+                    (self.has_attr("transform"), object_units, clip_bbox)
+                {
                     // The clip path is in this element's user space, i.e. inside its
                     // transform, while `el_bbox` is already transformed. (Later lookups
                     // of this element clip for themselves; see `get_element_bbox()`.)
@@ -135,10 +141,14 @@ impl SvgElement {
                             .and_then(|clip_bbox| el_bbox.intersect(&clip_bbox));
                     }
                 } else {
-                    bbox = el_bbox.intersect(&clip_bbox);
-                    let mut el = self.clone();
-                    el.content_bbox = bbox;
-                    context.update_element(&el);
+                    // (fractions of the element's box are the same fractions of the
+                    // transformed box)
+                    bbox = clip_el.clip(el_bbox, clip_bbox, context);
+                    if !self.has_attr("transform") {
+                        let mut el = self.clone();
+                        el.content_bbox = bbox;
+                        context.update_element(&el);
+                    }
                 }
             }
         }
